@@ -160,7 +160,7 @@ def check_query(q, funcs, enums, tier, logdir):
     t0 = time.time()
     res = dict(name=q["name"], function=q["func"], bounds=q["bounds"], functions_encoded=q.get("functions", []), obligation=q["name"])
     try:
-        ex = mir2smt.Executor(funcs, enums, inline=q.get("inline", ()), pure=q.get("pure", ()))
+        ex = mir2smt.Executor(funcs, enums, inline=q.get("inline", ()), pure=q.get("pure", ()), max_paths=q.get("max_paths", 4000))
         ctx = Ctx(ex, None)
         if q.get("modifies"):
             ex.modifies = q["modifies"](ctx)
